@@ -18,6 +18,8 @@ package main
 // back from the frame) and the Spec verdict of Spec/Fill.lean's independent readers (`specFill`).
 
 import (
+	"syscall"
+	"encoding/hex"
 	"encoding/binary"
 	"fmt"
 	"math/rand"
@@ -401,6 +403,62 @@ func e2eFillComponent(r *hx.Run) {
 		for _, f := range batch {
 			emitFillRun(r, f, eth, raw)
 		}
+	}
+
+	// the overrides hold for EVERY pass of a live scan, not only for the first: `sx arp --live <d> --srcip X --srcmac M`
+	// over three or more passes, ended by SIGINT; every ARP request of every pass names X and M as its sender
+	nLive := 2
+	if r.Tier == "thorough" {
+		nLive = 8
+	}
+	for i := 0; i < nLive; i++ {
+		base := labNet | uint32(16+4*rng.Intn(56))
+		x := uint32(10<<24 | 9<<16 | uint32(rng.Intn(250))<<8 | uint32(1+rng.Intn(250))) // not an address of the host
+		if i%2 == 1 {
+			x = labNet | uint32(200+rng.Intn(50)) // of the subnet, not of the host
+		}
+		m := []byte{byte(rng.Intn(128)) << 1, byte(rng.Intn(256)), byte(rng.Intn(256)), byte(rng.Intn(256)), byte(rng.Intn(256)), byte(rng.Intn(256))}
+		args := []string{"arp", "--json", "--live", fmt.Sprintf("%dms", 100+rng.Intn(100)), "--srcip", v4Text(x)}
+		withMAC := i%3 != 2
+		if withMAC {
+			args = append(args, "--srcmac", e2eMacText(macU64(m)))
+		} else {
+			m = []byte{2, 0, 0, 0, 0, 1}
+		}
+		args = append(args, fmt.Sprintf("%s/30", v4Text(base)))
+		lab.settle(30 * time.Millisecond)
+		lab.take()
+		p, err := startSX(false, nil, args...)
+		if err != nil {
+			panic(err)
+		}
+		time.Sleep(time.Duration(700+rng.Intn(300)) * time.Millisecond)
+		p.signal(syscall.SIGINT)
+		res := p.wait(20 * time.Second)
+		lab.settle(40 * time.Millisecond)
+		spa, sha := map[string]bool{}, map[string]bool{}
+		n := 0
+		for _, b := range lab.take() {
+			if len(b) >= 42 && b[12] == 8 && b[13] == 6 && b[21] == 1 && binary.BigEndian.Uint32(b[38:42])&^3 == base {
+				n++
+				spa[fmt.Sprint(binary.BigEndian.Uint32(b[28:32]))] = true
+				sha[hex.EncodeToString(b[22:28])+"/"+hex.EncodeToString(b[6:12])] = true
+			}
+		}
+		keys := func(m map[string]bool) string {
+			var ks []string
+			for k := range m {
+				ks = append(ks, k)
+			}
+			sort.Strings(ks)
+			return strings.Join(ks, ",")
+		}
+		obs := fmt.Sprintf("spa=%s;sha=%s;passes=%d;exit=%d", keys(spa), keys(sha), n/4, res.exit)
+		if res.timedOut {
+			obs = "TIMEOUT"
+		}
+		r.Count("live-overrides")
+		r.Case(fmt.Sprintf("arp-live/srcmac=%v", withMAC), "e2elivesrc", cmdText(args), fmt.Sprint(x), hex.EncodeToString(m), obs)
 	}
 }
 
